@@ -28,7 +28,7 @@ try:
     r = sh('go build ./... && go test -vet=off -count=1 ./... 2>&1 | tail -30')
     res['suite_with_patch'] = 'pass' if r.returncode == 0 and 'FAIL' not in r.stdout else 'FAIL'
     assert res['suite_with_patch'] == 'pass', 'existing suite fails with the patch:\n' + r.stdout[-2000:]
-    demofile = [f for f in os.listdir(src) if f.startswith('demo') and f.endswith('.go')][0]
+    demofile = [f for f in os.listdir(src) if f.startswith('demo') and (f.endswith('.go') or f.endswith('.go.txt'))][0]
     shutil.copy(os.path.join(src, demofile), os.path.join(wt, pkgdir, 'zz_seeded_demo_test.go'))
     pkgarg = '.' if pkgdir in ('.', '') else './%s/' % pkgdir
     cmd = 'go test -vet=off -count=1 %s -run %s %s' % ('-race' if race else '', "'%s'" % runre, pkgarg)
@@ -44,7 +44,7 @@ try:
     dst = os.path.join('/verif/seeded', sid)
     os.makedirs(dst, exist_ok=True)
     shutil.copy(os.path.join(src, 'patch.diff'), dst)
-    shutil.copy(os.path.join(src, demofile), os.path.join(dst, 'demo_test.go'))
+    shutil.copy(os.path.join(src, demofile), os.path.join(dst, 'demo_test.go.txt'))
     meta['confirmed_by_framework_author'] = res
     meta['demo_package_dir'] = pkgdir
     json.dump(meta, open(os.path.join(dst, 'meta.json'), 'w'), indent=1)
